@@ -905,8 +905,8 @@ class OpsMixin:
                         self.raise_builtin("TypeError", "sequence item: expected str instance")
                 return recv.join(parts)
             if name == "format":
-                return recv.format(*[self.to_str(a) for a in args],
-                                   **{k: self.to_str(v) for k, v in kwargs.items()})
+                return recv.format(*[self.format_value(a, "") for a in args],
+                                   **{k: self.format_value(v, "") for k, v in kwargs.items()})
             if name in ("isalnum", "isalpha", "isdigit", "isidentifier", "isnumeric", "islower",
                         "isupper", "isspace", "lower", "upper", "strip", "lstrip", "rstrip",
                         "startswith", "endswith", "split", "replace", "find", "count", "title",
